@@ -28,6 +28,8 @@ pub(crate) mod h_wtlfu;
 pub(crate) mod h_ctor;
 #[cfg(kani)]
 pub(crate) mod h_misc;
+#[cfg(kani)]
+pub(crate) mod h_iter;
 
 /// Concrete-playback tests written by the driver when it replays a solver counterexample.
 #[cfg(all(kani, test))]
